@@ -20,6 +20,10 @@ def run(ctx):
                 "caller unrefs argument and result separately), except the *_ref functions, which take a reference.")
     n = effi.check_fresh_handles(ctx, F)
     effi.check_zip_before_filter(ctx, F)
+    ctx.explain("E-FFI.thin: exported functions (and the closures defined in them) take no data-dependent decision of their "
+                "own besides null checks and Option/Result propagation; 7 reviewed exceptions.")
+    n = effi.check_thin_wrappers(ctx, F)
+    ctx.floor("E-FFI.thin", "exported function bodies and their closures", n, 250)
     ctx.floor("E-FFI.fresh", "exported functions taking and returning a handle", n, 50)
     st = elin.run(ctx, F, crates=("oxidd_ffi_c",), skip_guard_table=True)
     ctx.floor("E-LIN", "FFI bodies analysed", st["bodies"], 300)
